@@ -266,6 +266,8 @@ def shrink_replays(ctx, traces):
         st = f.get('step')
         if tr and isinstance(st, int) and 1 <= st < len(tr['steps']) and len(tr['steps']) > 2 and tr['steps'][st]['a'] == 'Input':
             rp['trace'] = {'id': tr['id'] + '-step%d' % st, 'cfg': tr['cfg'], 'steps': [tr['steps'][0], tr['steps'][st]]}
+        elif tr and isinstance(st, int) and 0 <= st < len(tr['steps']) and len(tr['steps']) > 1 and tr['steps'][st]['a'] == 'Other':
+            rp['trace'] = {'id': tr['id'] + '-step%d' % st, 'cfg': tr['cfg'], 'steps': [tr['steps'][st]]}
 
 
 def run(ctx, replay=None):
@@ -280,11 +282,11 @@ def run(ctx, replay=None):
     quick = ctx.tier == 'quick'
     d = tlc.scratch_copy([tm.SPEC, SPEC], prefix='vpi')
     try:
-        # quick: five seeded situations + fast sync (every situation is reached over the seeds); thorough: all ten
+        # quick: four seeded situations + fast sync (every situation is reached over the seeds); thorough: all ten
         # (one of them always a situation in which the node still takes the round's proposal: the scripted scenarios need it)
         if quick:
             must = ctx.rng.choice(['Propose', 'Round1', 'NewHeight', 'NewHeight2'])
-            sits = sorted([must] + ctx.rng.sample([x for x in SITS[:-1] if x != must], 4)) + ['FastSync']
+            sits = sorted([must] + ctx.rng.sample([x for x in SITS[:-1] if x != must], 3)) + ['FastSync']
         else:
             sits = list(SITS)
         T = write_mc(ctx, d, pairwise=not quick, sits=sits)
@@ -321,7 +323,14 @@ def run(ctx, replay=None):
         for rc, k in (('bc', 2), ('mempool', 3), ('pex', 3)):
             l = [o for o in others if o[0] == rc and o not in osel]
             osel += ctx.rng.sample(l, min(k, len(l)))
-    extras += [{'id': 'other-%s-%s' % (o[0], o[1]), 'cfg': {}, 'steps': [{'a': 'Other', 'args': list(o), 'post': {}}]} for o in osel]
+    # one child process per batch (the blockchain classes share the reference chain it builds once)
+    for rc in ('bc', 'mempool', 'pex'):
+        l = [o for o in osel if o[0] == rc]
+        ctx.rng.shuffle(l)
+        size = 5 if rc == 'bc' else 20
+        for i in range(0, len(l), size):
+            extras.append({'id': 'other-%s-%d' % (rc, i // size), 'cfg': {},
+                           'steps': [{'a': 'Other', 'args': list(o), 'post': {}} for o in l[i:i + size]]})
     ctx.log('%d of %d pairs in %d traces + %d engine-made traces' % (len(chosen), len(pairs), len(traces), len(extras)))
 
     # binding self-test: an accepted input declared "Drop" must be reported as a state change; a dropped input
